@@ -379,7 +379,7 @@ def _run(ctx, sess):
             for m2 in subsets:
                 x, y = rng.sample(LETTERS, 2)
                 files.append(("mixed:%d/%d/%s%s" % (m1, m2, x, y), systematic(m1, rng.randrange(2), x, y, (m2, rng.randrange(2)))))
-        per_combo = 60 if ctx.thorough else 5
+        per_combo = 250 if ctx.thorough else 12
         for mask in range(32):
             for dv in (0, 1):
                 for i in range(per_combo):
